@@ -45,6 +45,21 @@ CHECKS = {
     text="Programs containing reductions, groupby aggregations (incl. dropna=False), merges of every kind, sort / set_index, shuffles and drop_duplicates / unique / value_counts are executed on 18x17-row tables with (1..9) x (1..17) partitions under knob tuples drawn from the TLC-enumerated grids (split_every incl. False, split_out incl. True, shuffle_method tasks/disk, max_branch, merge broadcast None/True/False/bias and npartitions hints taken systematically, sort npartitions / upsample) with fuse on and off; TLC accepts each result only if it equals the default-knob result up to the row order / index labels the specification leaves undefined.",
     note="Trusted: TLC; the default-knob execution as reference (its own correctness is C01/C02's business). p2p shuffle cannot run here. Knob tuples per program are seeded samples of the grid (the merge broadcast x npartitions sub-grid is exhaustive).",
     design="5.1 C10"),
+ "C06": dict(
+    technique="TLA+ invariants Truthful / LengthsTruthful (spec/PlanWalkOps.tla) evaluated by TLC on traces of every collection node of the unoptimized-lowered, simplified-physical and fused plans of TLC-generated programs, plus session-history length queries",
+    text="For TLC-generated programs (QueryGen) under known-division and unknown-division/empty-partition layouts (and concat inputs whose index ranges touch or are disjoint) every node of three plan stages is materialised by one execution of the plan's own graph; TLC checks for each node that the number of computed partitions equals the reported npartitions and, where divisions are reported as known, that they are sorted, have npartitions+1 entries and bound every partition's observed min/max index label (last partition closed). Metadata-only row counts (len, shape, size) of the logical root and of partition selections asked in sequence on one shared source are compared with counted rows.",
+    note="Trusted: TLC; min/max/len of the computed pandas partitions. Per-partition intermediates of reductions (Chunk, GroupByChunk, TakeLast, tree nodes) are checked for their partition count only; string-labelled divisions are not ordered by the encoding and are skipped; parquet sources are covered under C18.",
+    design="5.4 C06"),
+ "C07": dict(
+    technique="TLA+ relation SchemaMatches / StageStable (spec/PlanWalkOps.tla) evaluated by TLC on traces of every collection node's declared meta vs the schema of each computed partition and of the computed result, and of the root's declared schema at all six optimizer stages",
+    text="The same plan walk logs, for every node, the declared container kind, ordered column labels, series/index names and dtype kinds next to those of every computed partition (including empty and all-null ones from the layouts) and of the concatenated result; TLC requires equality up to pandas' integer/boolean-to-float promotion, and that the root's declared schema is identical at the logical, simplified, tuned, physical, simplified-physical and fused stages.",
+    note="Trusted: TLC; pandas' typing rules are not re-specified (consistency between declaration and data only); numeric float64 columns in this tier.",
+    design="5.4 C07"),
+ "C09": dict(
+    technique="TLA+ model of Expr.__dask_graph__ (stack walk keyed by name, layer merge) model-checked by TLC for all small DAGs/namings; graph invariants (OutputsDefined, Closed, Acyclic, Unambiguous, NoPlanner) evaluated by TLC on the per-node layers of real plans before dask merges them",
+    text="TLC checks on all DAGs of 4 nodes x namings that the assembly walk yields a closed, acyclic, unambiguous graph with one layer per node exactly when names are collision-free (and silently drops a node otherwise). For TLC-generated programs the harness re-walks each of three plan stages, calls every node's own _layer(), and logs key -> (layer, task token, referenced keys incl. key-shaped references that nothing defines, embedded expression/collection objects); TLC evaluates the five invariants on every such graph.",
+    note="Trusted: TLC; dask.core.keys_in_tasks for dependency discovery plus a scan for key-shaped tuples of the plan's own names; task tokens from dask.base.tokenize. Graphs imported via persist/from_delayed/legacy are covered under C17.",
+    design="5.3 C09"),
 }
 
 def main():
